@@ -25,7 +25,10 @@ def fmt(x, rnd):
     f = float(x)
     if f.is_integer() and rnd.random() < 0.5:
         return str(int(f))
-    return repr(f)
+    r = repr(f)
+    if r.startswith("0.") and rnd.random() < 0.5:
+        return r[1:]        # ".25": a float syntax without leading zero
+    return r
 
 
 def text_of(comps, rnd):
@@ -159,7 +162,7 @@ def check(rep):
         for shape in shapes(n):
             for smode in ("none", "consistent", "inconsistent"):
                 for _ in range(patterns):
-                    S = Fr(rnd.choice([1000, 2048, 600, 51200]))
+                    S = Fr(rnd.choice([1000, 2048, 600, 51200, 8, 16]))      # 8, 16: shares of 3.125 % are masses below 1
                     rel = dyadic_partition(rnd, n)
                     vals = [(k, (r * S / 100 if k == "a" else r if k == "r" else None)) for k, r in zip(shape, rel)]
                     pert = rnd.choice(["none", "none", "one", "pct_over", "zero_pct"])
